@@ -788,8 +788,8 @@ Section Swap.
     - (* InvC *)
       unfold InvC, swap_state in *; sb. destruct HC as [C1 C2 C3 C4].
       pose proof (nd_scstates HK) as ND.
-      constructor; auto; rewrite count_st_swap by auto;
-        destruct (aget (b_scstates s) (sl_conn ref)); cbn [cstate_eqb]; rewrite Z.add_0_r; auto.
+      constructor; [| | |exact C4]; rewrite count_st_swap by assumption;
+        destruct (aget (b_scstates s) (sl_conn ref)); cbn [cstate_eqb]; rewrite Z.add_0_r; assumption.
     - apply InvG_some. unfold swap_state; sb. eapply InvG_cfg_refr; eauto. eapply aget_nonnil; eauto.
     - unfold InvS, swap_state in *; sb. rewrite map_upd_nth_same by reflexivity. exact HS.
   Qed.
